@@ -264,6 +264,40 @@ pub fn run(r: &mut R) {
     return Case(cid, mod, meta={"derive": derive, "shape": "struct " + ("named" if sh.named else "tuple") + str(sh.n), "n": 1, "sample": "#[derive(%s)] %s" % (derive, decl)})
 
 
+def macro_cases(start):
+    """Types generated by a `macro_rules!` that builds the format arguments around `$e:expr` fragments: each fragment is ONE operand
+    (the derive sees it as an invisible group).  The reference `format!` is written in the same macro from the same fragments."""
+    out = []
+    argsets = [("{} {} {}", "2 * $e, $e2 - $e, -$e2"), ("{0} {v}", "$e2 * $e, v = 10 - $e2"), ("{}", "$e"), ("{a:>6} {0}", "($e2, 3 * $e).1, a = [1 - $e][0]"),
+               ("{} {}", "f(2 * $e, $e2), 1 + $e2 * 2")]
+    frags = ("*x + 1", "*y - *x")
+    for derive, (attr, ph) in TRAITS.items():
+        for lit, args in argsets:
+            for shape in ("struct", "enum"):
+                if shape == "struct":
+                    decl = "#[derive(derive_more::%s)] #[%s(%s, %s)] pub struct $n { pub $f: i32, pub $g: i32 }" % (derive, attr, lit_rs(lit), args)
+                    mk, pat = "$n { $f: x, $g: y }", "$n { $f, $g }"
+                else:
+                    decl = "#[derive(derive_more::%s)] pub enum $n { #[%s(\"u\")] U, #[%s(%s, %s)] V { $f: i32, $g: i32 } }" % (derive, attr, attr, lit_rs(lit), args)
+                    mk, pat = "$n::V { $f: x, $g: y }", "$n::V { $f, $g }"
+                mod = """use super::*;
+#[allow(dead_code)] fn f(a: i32, b: i32) -> i32 { a - b }
+macro_rules! mk { ($n:ident { $f:ident, $g:ident }, $e:expr, $e2:expr) => {
+    %s
+    impl $n {
+        pub fn make(x: i32, y: i32) -> Self { %s }
+        #[allow(unreachable_patterns)] pub fn want(&self) -> String { match self { %s => format!(%s, %s), _ => unreachable!() } }
+    }
+} }
+mk!(S { x, y }, %s, %s);
+pub fn run(r: &mut R) {
+    for x in [-3i32, 0, 7] { for y in [2i32, -5, 11] { let val = S::make(x, y); r.eq(%s, format!(%s, val), val.want()); } }
+}""" % (decl, mk, pat, lit_rs(lit), args, frags[0], frags[1], lit_rs("%s | %s" % (lit, args)), lit_rs(ph))
+                sample = "macro_rules! mk { ($n:ident { $f:ident, $g:ident }, $e:expr, $e2:expr) => { %s } } mk!(S { x, y }, %s, %s);" % (decl, frags[0], frags[1])
+                out.append(Case("c%d" % (start + len(out)), mod, meta={"derive": derive, "shape": "macro-generated " + shape, "n": 1, "sample": sample}))
+    return out
+
+
 CASINGS = ["lowercase", "UPPERCASE", "PascalCase", "camelCase", "snake_case", "SCREAMING_SNAKE_CASE", "kebab-case", "SCREAMING-KEBAB-CASE"]
 
 
@@ -365,6 +399,10 @@ def run(chk, tier):
     ic = [c for c in implicit_cases(0) if True]
     # unit-name cases use digit-free struct names
     cases += ic
+    mc = macro_cases(len(cases))
+    cases += mc
+    chk.part("macro_generated", programs=len(mc), fragments="$e:expr = `*x + 1`, `*y - *x` as operands of `*`, binary and unary `-`, inside tuples, brackets and call arguments",
+             oracle="the same literal and arguments in a format! written by the same macro")
     chk.part("space", traits=list(TRAITS), literal_variants=total_lits, programs=len(cases), literal_spellings="2 of every 7 literals written with \\u{..} escapes for every character / as a raw string",
              shapes="unit, tuple 1-3, named 1-3 (integer carrier &'static i32, float carrier f64)",
              argument_templates=["none", "field idents", "reversed idents", "expressions", "name = expr aliases", "alias shadowing a field name", "width/precision arguments", ".* arguments", "self.<field> (structs)"],
